@@ -28,7 +28,8 @@ pub fn main(tier: &str, seed: u64, n_override: Option<u64>) {
             // ---- detection
             let mut q: Joints = std::array::from_fn(|_| dy(rng.range(-3.0, 3.0), 16));
             let m = rng.int(-2, 2) as f64;
-            let f = [0.3, 0.9, 0.97, 1.03, 1.1, 2.0, 30.0][rng.below(7) as usize];
+            // factors of the band: coarse ones, and a fine sweep of +-1% around the edge (the margin guard below is 1e-9 rad = 6e-6 of the band)
+            let f = if rng.below(3) == 0 { rng.range(0.99, 1.01) } else { [0.3, 0.9, 0.97, 1.03, 1.1, 2.0, 30.0][rng.below(7) as usize] };
             let eps = thr * f * if rng.bool() { 1.0 } else { -1.0 };
             q[4] = m * PI + eps;
             let j = r.from_model(&q);
